@@ -94,12 +94,15 @@ elements (printed in increasing order); the exact order is in `phys` (L3) only -
 def fmtTie (k : Nat) (xs : List Nat) : String :=
   s!" k{k}={fmtList (xs.map (· % 10))} ms{k}={fmtList (xs.mergeSort (fun a b => a ≤ b))} n{k}={xs.length}"
 
+/-- `a.abs` computed in linear time (the definition indexes the buffer slot by slot) -/
+def fastAbs (a : Arr) : List Nat := a.buf.take a.size ++ List.replicate (a.size - a.buf.length) 0
+
 def obsM (s : Sess) : String :=
   String.join <| (List.range NSLOT).map fun k =>
     match s.arr k with
     | none => ""
-    | some a => if s.tie = some k then fmtTie k a.abs else
-      s!" a{k}={fmtList a.abs} n{k}={a.size} l{k}={fmtLast (a.getLast {}).2.1}"
+    | some a => if s.tie = some k then fmtTie k (fastAbs a) else
+      s!" a{k}={fmtList (fastAbs a)} n{k}={a.size} l{k}={fmtLast (a.getLast {}).2.1}"
 def obsS (s : Sess) : String :=
   String.join <| (List.range NSLOT).map fun k =>
     match s.lst k with
@@ -171,8 +174,9 @@ def specZip1 (op : String) (xs : List Nat) (pos : Nat) (rm : Bool) (x y : Nat) (
     match blk with
     | some st => (st, none, xs, pos, rm)
     | none =>
-      let xs1 := (Spec.Seq.addAt xs x pos).2
-      (.ok, none, (Spec.Seq.addAt xs1 y pos).2, pos + 1, rm)
+      let r1 := Spec.Seq.addAt xs x pos
+      if r1.1 != .ok then (r1.1, none, xs, pos, rm) else
+      (.ok, none, (Spec.Seq.addAt r1.2 y pos).2, pos + 1, rm)
   | "zit_replace" =>
     if Spec.Seq.wdec pos ≥ xs.length then (.errOutOfRange, none, xs, pos, rm)
     else
@@ -189,6 +193,62 @@ Refusals come from the environment: `@fired` (how many refusals fired in the C r
 allocator request, the input schedule `fail=` position by position for `zip_iter_add`, whose two growth
 steps are separate requests.  Nothing here reads the model, so this pass also runs in sessions whose
 blocks the model pass cannot materialise (`M ?`). -/
+
+/-- one call of the plain iterator on the ideal list, the cursor being what it is in the library — an
+index (`pos`) and the "already removed" flag.  For cursors inside the list this is `Spec.Seq.Cursor`; it
+also says what happens to a cursor left behind the end by direct calls on the array (legal input for an
+index-based iterator): every call is rejected by its index test.  `room`: blocking status of `iter_add`
+(computed by the caller from the capacity). -/
+def specIt (op : String) (xs : List Nat) (pos : Nat) (rm : Bool) (x : Nat) (room : Option Stat) :
+    Stat × Option Nat × List Nat × Nat × Bool :=
+  match op with
+  | "it_next" =>
+    if pos ≥ xs.length then (.iterEnd, none, xs, pos, rm) else (.ok, some (xs.getD pos 0), xs, pos + 1, false)
+  | "it_remove" =>
+    if rm then (.errValueNotFound, none, xs, pos, rm) else
+    let r := Spec.Seq.removeAt xs (Spec.Seq.wdec pos)
+    if r.1 != .ok then (r.1, none, xs, pos, rm) else (.ok, r.2.1, r.2.2, pos - 1, true)
+  | "it_add" =>
+    if pos > xs.length then (.errOutOfRange, none, xs, pos, rm) else
+    match room with
+    | some st => (st, none, xs, pos, rm)
+    | none => let r := Spec.Seq.addAt xs x pos; (r.1, none, r.2, if r.1 == .ok then pos + 1 else pos, rm)
+  | "it_replace" =>
+    let r := Spec.Seq.replaceAt xs x (Spec.Seq.wdec pos)
+    (r.1, r.2.1, r.2.2, pos, rm)
+  | _ => (.ok, none, xs, pos, rm)
+
+/-- one call of the zip iterator over two *different* ideal lists, index-based in the same way; `blk`:
+blocking status of `zip_iter_add` (room in either array) -/
+def specZip2 (op : String) (xs1 xs2 : List Nat) (pos : Nat) (rm : Bool) (x y : Nat) (blk : Option Stat) :
+    Stat × Option (Nat × Nat) × List Nat × List Nat × Nat × Bool :=
+  match op with
+  | "zit_next" =>
+    if pos ≥ xs1.length ∨ pos ≥ xs2.length then (.iterEnd, none, xs1, xs2, pos, rm)
+    else (.ok, some (xs1.getD pos 0, xs2.getD pos 0), xs1, xs2, pos + 1, false)
+  | "zit_remove" =>
+    if Spec.Seq.wdec pos ≥ xs1.length ∨ Spec.Seq.wdec pos ≥ xs2.length then (.errOutOfRange, none, xs1, xs2, pos, rm)
+    else if rm then (.errValueNotFound, none, xs1, xs2, pos, rm)
+    else
+      let r1 := Spec.Seq.removeAt xs1 (Spec.Seq.wdec pos)
+      let r2 := Spec.Seq.removeAt xs2 (Spec.Seq.wdec pos)
+      (.ok, some (r1.2.1.getD 0, r2.2.1.getD 0), r1.2.2, r2.2.2, pos - 1, true)
+  | "zit_add" =>
+    match blk with
+    | some st => (st, none, xs1, xs2, pos, rm)
+    | none =>
+      -- both insertions or none: the status of the first one that is rejected
+      let r1 := Spec.Seq.addAt xs1 x pos
+      if r1.1 != .ok then (r1.1, none, xs1, xs2, pos, rm) else
+      let r2 := Spec.Seq.addAt xs2 y pos
+      if r2.1 != .ok then (r2.1, none, xs1, xs2, pos, rm) else (.ok, none, r1.2, r2.2, pos + 1, rm)
+  | "zit_replace" =>
+    if Spec.Seq.wdec pos ≥ xs1.length ∨ Spec.Seq.wdec pos ≥ xs2.length then (.errOutOfRange, none, xs1, xs2, pos, rm)
+    else
+      let r1 := Spec.Seq.replaceAt xs1 x (Spec.Seq.wdec pos)
+      let r2 := Spec.Seq.replaceAt xs2 y (Spec.Seq.wdec pos)
+      (.ok, some (r1.2.1.getD 0, r2.2.1.getD 0), r1.2.2, r2.2.2, pos, rm)
+  | _ => (.ok, none, xs1, xs2, pos, rm)
 
 def SpecSess.get (s : SpecSess) (k : Nat) : Option SSlot := s.slots.getD k none
 def SpecSess.set (s : SpecSess) (k : Nat) (a : Option SSlot) : SpecSess := { s with slots := s.slots.set k a }
@@ -281,6 +341,8 @@ def specStep (s : SpecSess) (c : Cmd) : SpecSess × String :=
             match b1 with
             | some _ => finS s (fmtStat .errAlloc)
             | none =>
+              -- a cursor left behind the end: the first insertion is rejected by its index test
+              if pos > s1.xs.length then finS (s.set k1 (some { s1 with cap := c1 })) (fmtStat .errOutOfRange) else
               let (b2, c2, _) := roomSched { s1 with cap := c1 } (s1.xs.length + 1) c.sched n1
               match b2 with
               | some st => finS (s.set k1 (some { s1 with cap := c1 })) (fmtStat st)
@@ -291,27 +353,26 @@ def specStep (s : SpecSess) (c : Cmd) : SpecSess × String :=
             let (sst, so, xs', pos', rm') := specZip1 c.op s1.xs pos rm x y none
             finS { s.set k1 (some { s1 with xs := xs' }) with zit := some (k1, k2, pos', rm') } (fmtOut2 sst so)
         else
-        let zc : Spec.Seq.ZipCursor := { done1 := s1.xs.take pos, todo1 := s1.xs.drop pos, done2 := s2.xs.take pos,
-                                         todo2 := s2.xs.drop pos, removed := rm }
-        let put (s : SpecSess) (zc : Spec.Seq.ZipCursor) (c1 c2 : Nat) : SpecSess :=
-          { (s.set k1 (some { s1 with xs := zc.content1, cap := c1 })).set k2 (some { s2 with xs := zc.content2, cap := c2 }) with
-            zit := some (k1, k2, zc.done1.length, zc.removed) }
-        match c.op with
-        | "zit_next" => let (sst, so, zc') := zc.next; finS (put s zc' s1.cap s2.cap) (fmtOut2 sst so)
-        | "zit_remove" => let (sst, so, zc') := zc.remove; finS (put s zc' s1.cap s2.cap) (fmtOut2 sst so)
-        | "zit_add" =>
+        let put (s : SpecSess) (xs1 xs2 : List Nat) (c1 c2 pos : Nat) (rm : Bool) : SpecSess :=
+          { (s.set k1 (some { s1 with xs := xs1, cap := c1 })).set k2 (some { s2 with xs := xs2, cap := c2 }) with
+            zit := some (k1, k2, pos, rm) }
+        if c.op == "zit_index" then finS s s!"st=- out={Spec.Seq.wdec pos}" else
+        if c.op == "zit_add" then
           -- room in the first, then in the second array (each a separate allocator request); any
-          -- failure is reported as CC_ERR_ALLOC; then both insertions
+          -- failure is reported as CC_ERR_ALLOC; then both insertions or none
           let (b1, c1, n1) := roomSched s1 s1.xs.length c.sched 0
           match b1 with
           | some _ => finS s (fmtStat .errAlloc)
           | none =>
             let (b2, c2, _) := roomSched s2 s2.xs.length c.sched n1
             match b2 with
-            | some _ => finS (put s zc c1 s2.cap) (fmtStat .errAlloc)
-            | none => let (sst, zc') := zc.add x y; finS (put s zc' c1 c2) (fmtStat sst)
-        | "zit_replace" => let (sst, so, zc') := zc.replace x y; finS (put s zc' s1.cap s2.cap) (fmtOut2 sst so)
-        | _ => finS s s!"st=- out={zc.index}"
+            | some _ => finS (put s s1.xs s2.xs c1 s2.cap pos rm) (fmtStat .errAlloc)
+            | none =>
+              let (sst, _, xs1, xs2, pos', rm') := specZip2 c.op s1.xs s2.xs pos rm x y none
+              finS (put s xs1 xs2 c1 c2 pos' rm') (fmtStat sst)
+        else
+          let (sst, so, xs1, xs2, pos', rm') := specZip2 c.op s1.xs s2.xs pos rm x y none
+          finS (put s xs1 xs2 s1.cap s2.cap pos' rm') (fmtOut2 sst so)
       | _, _ => msg "noiter"
     | none => msg "noiter"
   | "it_new" =>
@@ -321,19 +382,11 @@ def specStep (s : SpecSess) (c : Cmd) : SpecSess × String :=
     | some (k1, pos, rm) =>
       match s.get k1 with
       | some sl =>
-        let cur := curOf sl.xs pos rm
-        let put (s : SpecSess) (cu : Spec.Seq.Cursor) (cap : Nat) : SpecSess :=
-          { s.set k1 (some { sl with xs := cu.content, cap }) with it := some (k1, cu.done.length, cu.removed) }
-        match c.op with
-        | "it_next" => let (sst, so, cu) := cur.next; finS (put s cu sl.cap) (fmtOut sst so)
-        | "it_remove" => let (sst, so, cu) := cur.remove; finS (put s cu sl.cap) (fmtOut sst so)
-        | "it_add" =>
-          let (blk, cap') := roomFired sl sl.xs.length refused
-          match blk with
-          | some st => finS s (fmtStat st)
-          | none => let (sst, cu) := cur.add x; finS (put s cu cap') (fmtStat sst)
-        | "it_replace" => let (sst, so, cu) := cur.replace x; finS (put s cu sl.cap) (fmtOut sst so)
-        | _ => finS s s!"st=- out={cur.index}"
+        if c.op == "it_index" then finS s s!"st=- out={Spec.Seq.wdec pos}" else
+        let (room, cap') := if c.op == "it_add" ∧ pos ≤ sl.xs.length then roomFired sl sl.xs.length refused else (none, sl.cap)
+        let (sst, so, xs', pos', rm') := specIt c.op sl.xs pos rm x room
+        let s' := { s.set k1 (some { sl with xs := xs', cap := if sst == .ok then cap' else sl.cap }) with it := some (k1, pos', rm') }
+        if c.op == "it_add" then finS s' (fmtStat sst) else finS s' (fmtOut sst so)
       | none => msg "noiter"
     | none => msg "noiter"
   | _ =>
@@ -398,7 +451,8 @@ def specStep (s : SpecSess) (c : Cmd) : SpecSess × String :=
 /-! ### the model pass (L3).  It keeps ideal shadow lists only for its own bookkeeping; the `S` line it
 computes is discarded by `step`. -/
 def stepM (s : Sess) (c : Cmd) : Sess × String × String :=
-  let s := { s with tie := none }
+  -- the shadow lists follow the model (they only steer the protocol: which slots exist)
+  let s := { s with tie := none, sslots := s.slots.map (fun (o : Option Arr) => o.map fastAbs) }
   let m := s.mem.begin c.sched
   let refused := c.fired > 0
   let k := let k := c.nat "o" 0; if k < NSLOT then k else 0
